@@ -212,6 +212,10 @@ def path_is_index_ext(prog, fn, operand, depth=4, _seen=None):
             if not ok2:
                 return False, d2
             found = True
+        elif o.kind == 'arg' and not core.call_sites_of(prog, o.fn.id) and not o.fn.is_pub:
+            # a crate-private function without any caller in the analysed build (SimpleFileIndex is compiled but never
+            # instantiated): nothing can pass it a path; as soon as a caller appears its argument is traced
+            found = True
         else:
             return False, 'origin %r' % o
     return found, 'with_extension("index")'
